@@ -2,7 +2,7 @@ use crate::{
     cfg::RegisterSet,
     parser::{
         CsrIType, CsrType, HasRegisterSets, IArithType, Inst, InstructionProperties, LoadType,
-        ParserNode, Register, RegisterProperties,
+        ParserNode, Register, RegisterProperties, StoreType,
     },
 };
 
@@ -56,6 +56,8 @@ impl HasGenValueInfo for ParserNode {
                 // TODO handle other CSR instructions
                 _ => None,
             },
+            // A stack slot holds a word: only a word store fills it
+            ParserNode::Store(expr) if *expr.inst.get() != StoreType::Sw => None,
             ParserNode::Store(expr) => {
                 if expr.rs1.get().is_stack_pointer() {
                     Some((
@@ -67,6 +69,25 @@ impl HasGenValueInfo for ParserNode {
                 }
             }
             _ => None,
+        }
+    }
+
+    fn kill_memory_values(&self) -> Vec<MemoryLocation> {
+        match self {
+            // A byte or half-word store changes a part of every word that it
+            // overlaps
+            ParserNode::Store(expr) if expr.rs1.get().is_stack_pointer() => {
+                let offset = expr.imm.get().value();
+                let width = match expr.inst.get() {
+                    StoreType::Sb => 1,
+                    StoreType::Sh => 2,
+                    StoreType::Sw => return Vec::new(),
+                };
+                (-3..width)
+                    .map(|byte| MemoryLocation::StackOffset(offset.wrapping_add(byte)))
+                    .collect()
+            }
+            _ => Vec::new(),
         }
     }
 
